@@ -87,17 +87,14 @@ def compare_tree(ctx: Ctx, case, lines, types, doc, expected_enc=None):
         ln, info = lines[li], infos[li]
         st = tree.stages[stage_of[li]]
         if ln[0] == 'g':
-            if len(st) != 1 or not isinstance(st[0].token, T.MetacommentToken):
-                viol('global-comment-node', f'line {li + 1}: global comment is not a single comment node '
-                     f'({len(st)} nodes)')
+            # a global comment is one line = one stage; where its node hangs in the tree is kernpy's design choice and not part
+            # of the property (C17 constrains the listing order instead), so only kind and text are compared
+            if len(st) < 1 or not all(isinstance(n_.token, T.MetacommentToken) for n_ in st):
+                viol('global-comment-node', f'line {li + 1}: the stage of a global comment line holds {len(st)} nodes, not all comments')
                 ok = False
                 continue
-            if st[0].token.encoding != ln[1].strip():
+            if any(n_.token.encoding != ln[1].strip() for n_ in st):
                 viol('cell-text', f'line {li + 1}: global comment stored as {st[0].token.encoding!r}, text {ln[1]!r}')
-                ok = False
-            exp_parent = last_pre_g if last_pre_g is not None else tree.root
-            if st[0].parent is not exp_parent:
-                viol('parent-link', f'line {li + 1}: global comment does not hang off the previous global comment / root')
                 ok = False
             last_pre_g = st[0]
             continue
@@ -119,10 +116,6 @@ def compare_tree(ctx: Ctx, case, lines, types, doc, expected_enc=None):
                      f'{getattr(node.token, "encoding", None)!r}, cell text {text!r}')
                 ok = False
             if info.kind == 'header':
-                if node.parent is not header_parent:
-                    viol('parent-link', f'line {li + 1} col {col}: header does not hang off the last preceding '
-                         f'global comment / root')
-                    ok = False
                 if node.header_node is not node or getattr(node.token, 'spine_id', None) != col:
                     viol('header-identity', f'header col {col}: header_node/spine_id wrong '
                          f'(spine_id={getattr(node.token, "spine_id", None)})')
@@ -236,7 +229,7 @@ def run(ctx: Ctx):
                 'header node and spine id compared with the model; tree-shape invariant and add_node contract. '
                 'Non-trivial = layout with a split or join, or a document with a hostile cell; distinct by text.')
     ctx.assumptions = ['Humdrum spine-path rules as implemented in model/spinepaths.py',
-                       'a global comment hangs off the previous global comment or the root (kernpy design)']
+                       'where a global comment node hangs in the tree is not constrained (only its stage, kind and text)']
     if ctx.tier == 'quick':
         spaces = [(1, 3, 8), (2, 2, 8), (3, 2, 4)]
         n_random = 250
